@@ -81,7 +81,59 @@ def gen_layout(rng, size):
     return fields, used
 
 
+def gen_layout_big(rng, size):
+    """fields clustered around the byte offsets where an implementation might change gears (255/256, 511/512, 1023/1024, ...)
+    in buffers of several hundred to several thousand bytes (VPD pages, IDENTIFY data, element status)"""
+    used = set()
+    fields = []
+    marks = [m for m in (128, 256, 512, 1024, 2048, 4096, size) if m <= size]
+    for _ in range(rng.choice([2, 4, 8, 12])):
+        for _try in range(20):
+            m = rng.choice(marks)
+            if rng.random() < 0.8:
+                width = rng.choice([1, 3, 8, 9, 16, 17, 24, 31, 32, 33, 48, 64, 65, 72])
+                byte = max(0, min(size - 1, m + rng.randint(-10, 2)))
+                msb = rng.randrange(0, 8)
+                bits = set(range(8 * byte + 7 - msb, 8 * byte + 7 - msb + width))
+                if max(bits) >= 8 * size or bits & used:
+                    continue
+                used |= bits
+                fields.append(("m", byte, msb, width))
+                break
+            k = rng.choice(["b", "w", "dw"])
+            unit = {"b": 1, "w": 2, "dw": 4}[k]
+            n = rng.choice([1, 2, 4, 8, 20])
+            off = max(0, min(size - 1, m + rng.randint(-24, 2)))
+            bits = set(range(8 * off, 8 * (off + n * unit)))
+            if off + n * unit > size or bits & used:
+                continue
+            used |= bits
+            fields.append((k, off, n, unit))
+            break
+    return fields, used
+
+
+def failing_calls(ctx, conv):
+    """calls that fail (a field beyond the buffer, a value that is no number): whatever they raise, they leave nothing behind
+    for the calls that follow"""
+    for args in (({"x": 3, "y": 0x77, "z": 0xABCD}, {"x": [0x0F, 0], "y": [0xFF, 9], "z": [0xFFFF, 2]}, bytearray(4)),
+                 ({"a": 0x11, "x": None}, {"a": [0xFF, 1], "x": [0xFF, 0]}, bytearray(4)),
+                 ({"a": 0x5A, "blob": b"\x01\x02\x03"}, {"a": [0xF0, 0], "blob": ("b", 2, 3)}, bytearray(3)),
+                 ({"a": 1, "s": "text"}, {"a": [0x01, 0], "s": [0xFFFF, 1]}, bytearray(8))):
+        try:
+            conv.encode_dict(*args)
+            ctx.count("bad_calls_accepted")
+        except Exception:  # noqa: BLE001
+            ctx.count("failing_calls_in_between")
+    try:
+        conv.decode_bits(bytearray(2), {"a": [0xFF, 0], "far": [0xFFFF, 7]}, {})
+    except Exception:  # noqa: BLE001
+        ctx.count("failing_calls_in_between")
+
+
 def run_layout_case(ctx, conv, R, rng, size, fields, used, values=None, tag="layout"):
+    if rng.random() < 0.05:
+        failing_calls(ctx, conv)
     names = ["f%d" % i for i in range(len(fields))]
     check = {}
     vals = {}
@@ -95,6 +147,9 @@ def run_layout_case(ctx, conv, R, rng, size, fields, used, values=None, tag="lay
                 if byte + (7 - msb + width + 7) // 8 + extra > size:
                     extra = 0
             check[name], _n = mask_of(byte, msb, width, extra)
+            if rng.random() < 0.15:
+                check[name] = tuple(check[name])  # the notation's type admits lists and tuples alike
+                ctx.count("masks_written_as_tuples")
             if extra:
                 ctx.count("non_minimal_span_masks")
             vals[name] = rng.getrandbits(width) if values is None else values[name]
@@ -102,7 +157,7 @@ def run_layout_case(ctx, conv, R, rng, size, fields, used, values=None, tag="lay
                 nontrivial = True
         else:
             k, off, n, unit = f
-            check[name] = (k, off, n)
+            check[name] = (k, off, n) if rng.random() < 0.85 else [k, off, n]
             vals[name] = bytearray(rng.getrandbits(8) for _ in range(n * unit))
     prior = bytearray(rng.getrandbits(8) for _ in range(size))
     for pos in used:
@@ -268,9 +323,14 @@ def run(shard, ctx):
     if sid == "invivo":
         invivo(ctx, conv, R)
         return
-    for _ in range(shard["n"]):
-        size = rng.choice([1, 2, 4, 8, 12, 16, 24, 32, 48])
-        fields, used = gen_layout(rng, size)
+    for i in range(shard["n"]):
+        if i % 6 == 5:
+            size = rng.choice([200, 255, 256, 257, 300, 511, 512, 513, 520, 572, 1024, 1030, 2052, 4100])
+            fields, used = gen_layout_big(rng, size)
+            ctx.count("big_buffer_layouts")
+        else:
+            size = rng.choice([1, 2, 4, 8, 12, 16, 24, 32, 48])
+            fields, used = gen_layout(rng, size)
         if fields:
             run_layout_case(ctx, conv, R, rng, size, fields, used)
 
